@@ -1002,6 +1002,8 @@ def inline_helpers(trees: Dict[str, ast.Module], anchors: Optional[Set[str]] = N
     """In-place.  Returns notes `module: helper -> n sites (dissolved|kept)`."""
     anchors = anchor_names() if anchors is None else anchors
     notes: List[str] = normalise_names(trees, anchors)
+    notes += fuse_wrappers(trees)
+    notes += normalise_call_arguments(trees)
     notes += expand_forwarders(trees)
     notes += expand_context_managers(trees)
     notes += inline_package_constants(trees)
@@ -1288,13 +1290,19 @@ def expand_generator_helpers(trees: Dict[str, ast.Module], anchors: Set[str]) ->
             if isinstance(n, _FUNC + (ast.ClassDef,)):
                 count[n.name] = count.get(n.name, 0) + 1
     gens: Dict[str, Tuple[str, ast.FunctionDef]] = {}
+    gen_cls: Dict[str, Optional[ast.ClassDef]] = {}
     for mod, t in trees.items():
-        for fn in t.body:
+        cands_ = [(fn, None) for fn in t.body] + [(fn, c_) for c_ in t.body if isinstance(c_, ast.ClassDef) for fn in c_.body]
+        for fn, cls_ in cands_:
             if not isinstance(fn, ast.FunctionDef) or count.get(fn.name) != 1 or fn.name in wsn:
                 continue
+            if cls_ is not None and fn.decorator_list and all(isinstance(d, ast.Name) and d.id == "staticmethod" for d in fn.decorator_list):
+                fn_static = True
+            else:
+                fn_static = False
             if not (_private(fn.name) and fn.name not in anchors or (base and fn.name not in base)):
                 continue
-            if fn.decorator_list or fn.args.vararg or fn.args.kwarg or fn.args.posonlyargs:
+            if (fn.decorator_list and not fn_static) or fn.args.vararg or fn.args.kwarg or fn.args.posonlyargs:
                 continue
             ys = [n for n in _own_nodes(fn) if isinstance(n, (ast.Yield, ast.YieldFrom))]
             if not ys or any(isinstance(n, ast.YieldFrom) for n in ys) or any(isinstance(n, (ast.Return, ast.While, ast.Try, ast.With, ast.Lambda) + _FUNC) for n in _own_nodes(fn)):
@@ -1317,6 +1325,9 @@ def expand_generator_helpers(trees: Dict[str, ast.Module], anchors: Set[str]) ->
 
             if tail_ok(_helper_body(fn)):
                 gens[fn.name] = (mod, fn)
+                gen_cls[fn.name] = None if (cls_ is None or fn_static) else cls_
+                if cls_ is not None and not fn_static and not fn.args.args:
+                    del gens[fn.name]
     notes: List[str] = []
     if not gens:
         return notes
@@ -1337,7 +1348,11 @@ def expand_generator_helpers(trees: Dict[str, ast.Module], anchors: Set[str]) ->
                             home, g = gens[nm]
                             leaves = [x for s_ in st.body for x in ast.walk(s_) if isinstance(x, (ast.Break, ast.Return, ast.Yield, ast.YieldFrom))]
                             own_breaks = [x for x in leaves if not isinstance(x, ast.Break) or not any(isinstance(a, (ast.For, ast.While)) and any(y is x for y in ast.walk(a)) for s_ in st.body for a in ast.walk(s_))]
-                            binding = _bind(g, st.iter, False)
+                            is_m = gen_cls.get(nm) is not None
+                            binding = _bind(g, st.iter, is_m) if (not is_m or isinstance(f, ast.Attribute)) else None
+                            if binding is not None and is_m:
+                                binding = dict(binding)
+                                binding[g.args.args[0].arg] = f.value
                             if binding is not None and not own_breaks and all(_simple_arg(v) for v in binding.values()) and not (_stored_names(g) & set(binding)):
                                 suffix = "__g%d" % (sum(map(ord, g.name)) % 97)
                                 rename = {s_: s_ + suffix for s_ in _stored_names(g)}
@@ -1373,12 +1388,260 @@ def expand_generator_helpers(trees: Dict[str, ast.Module], anchors: Set[str]) ->
                                 i += len(new)
                                 continue
                     i += 1
+    # comprehension sites:  (.. for b in G(args) ..)  with G = `for v in IT: [if C:] yield E`
+    for mod, t in trees.items():
+        for comp in [x for x in ast.walk(t) if isinstance(x, (ast.ListComp, ast.SetComp, ast.GeneratorExp, ast.DictComp))]:
+            gi = 0
+            while gi < len(comp.generators):
+                cg = comp.generators[gi]
+                it = cg.iter
+                if isinstance(it, ast.Call) and not it.keywords and not cg.is_async:
+                    f = it.func
+                    nm = f.id if isinstance(f, ast.Name) else (f.attr if isinstance(f, ast.Attribute) and _simple_arg(f.value) else None)
+                    if nm in gens and not any(comp is x for x in ast.walk(gens[nm][1])):
+                        home, g = gens[nm]
+                        body = _helper_body(g)
+                        body = [x for x in body if not (isinstance(x, ast.AnnAssign) and x.value is None)]
+                        if len(body) == 1 and isinstance(body[0], ast.For) and not body[0].orelse:
+                            lp = body[0]
+                            inner = lp.body
+                            cond = None
+                            if len(inner) == 1 and isinstance(inner[0], ast.If) and not inner[0].orelse:
+                                cond, inner = inner[0].test, inner[0].body
+                            if len(inner) == 1 and isinstance(inner[0], ast.Expr) and isinstance(inner[0].value, ast.Yield) and inner[0].value.value is not None:
+                                is_m = gen_cls.get(nm) is not None
+                                binding = _bind(g, it, is_m) if (not is_m or isinstance(f, ast.Attribute)) else None
+                                if binding is not None and is_m:
+                                    binding = dict(binding)
+                                    binding[g.args.args[0].arg] = f.value
+                                if binding is not None and all(_simple_arg(v) for v in binding.values()) and not (_stored_names(g) & set(binding)):
+                                    suffix = "__g%d" % (sum(map(ord, g.name)) % 97)
+                                    rename = {s_: s_ + suffix for s_ in _stored_names(g)}
+                                    sub = _Subst(dict(binding), rename)
+                                    y = inner[0].value.value
+                                    direct = isinstance(y, ast.Name) and isinstance(lp.target, ast.Name) and y.id == lp.target.id and isinstance(cg.target, ast.Name)
+                                    if direct:
+                                        rename[lp.target.id] = cg.target.id
+                                        sub = _Subst(dict(binding), rename)
+                                        new_g = ast.comprehension(target=cg.target, iter=sub.visit(copy.deepcopy(lp.iter)), ifs=([sub.visit(copy.deepcopy(cond))] if cond is not None else []) + list(cg.ifs), is_async=0)
+                                        comp.generators[gi] = new_g
+                                    else:
+                                        tg_ = sub.visit(copy.deepcopy(lp.target))
+                                        g1 = ast.comprehension(target=tg_, iter=sub.visit(copy.deepcopy(lp.iter)), ifs=[sub.visit(copy.deepcopy(cond))] if cond is not None else [], is_async=0)
+                                        g2 = ast.comprehension(target=cg.target, iter=ast.List(elts=[sub.visit(copy.deepcopy(y))], ctx=ast.Load()), ifs=list(cg.ifs), is_async=0)
+                                        comp.generators[gi:gi + 1] = [g1, g2]
+                                    ast.fix_missing_locations(comp)
+                                    n_sites[nm] = n_sites.get(nm, 0) + 1
+                gi += 1
     for nm, k in sorted(n_sites.items()):
         home, g = gens[nm]
         refs = sum(1 for t2 in trees.values() for x in ast.walk(t2) if (isinstance(x, ast.Name) and x.id == nm) or (isinstance(x, ast.Attribute) and x.attr == nm) or (isinstance(x, ast.alias) and x.name == nm))
         if refs == 0:
-            trees[home].body.remove(g)
+            for holder_ in [trees[home].body] + [c_.body for c_ in trees[home].body if isinstance(c_, ast.ClassDef)]:
+                if g in holder_:
+                    holder_.remove(g)
+                    if not holder_:
+                        holder_.append(ast.Pass())
         notes.append(f"{home}: generator helper {nm} -> {k} loop(s) read as its body{', dissolved' if refs == 0 else ''}")
+    return notes
+
+
+def normalise_call_arguments(trees: Dict[str, ast.Module]) -> List[str]:
+    """`f(a, kind=k, parent=p)` is read as `f(a, k, p)` for a function / method that the package defines under
+    a unique name: whether an argument is passed by position or by keyword (or the parameters were made
+    keyword-only) is not something a rule should see.  Only calls whose keywords all name parameters and leave
+    no gap before the last one given are rewritten; defaults fill gaps."""
+    defs: Dict[str, List[Tuple[ast.FunctionDef, bool]]] = {}
+    for t in trees.values():
+        for n in ast.walk(t):
+            if isinstance(n, ast.ClassDef):
+                for s_ in n.body:
+                    if isinstance(s_, ast.FunctionDef):
+                        static = any(isinstance(d, ast.Name) and d.id in ("staticmethod",) for d in s_.decorator_list)
+                        defs.setdefault(s_.name, []).append((s_, not static))
+        for s_ in t.body:
+            if isinstance(s_, ast.FunctionDef):
+                defs.setdefault(s_.name, []).append((s_, False))
+    n_calls = 0
+    for t in trees.values():
+        for c in ast.walk(t):
+            if not (isinstance(c, ast.Call) and c.keywords):
+                continue
+            nm = c.func.id if isinstance(c.func, ast.Name) else (c.func.attr if isinstance(c.func, ast.Attribute) else None)
+            cands = defs.get(nm or "", [])
+            if len(cands) != 1 or nm.startswith("__"):
+                continue
+            fn, is_method = cands[0]
+            a = fn.args
+            if a.vararg or a.kwarg or a.posonlyargs or any(k.arg is None for k in c.keywords) or any(isinstance(x, ast.Starred) for x in c.args):
+                continue
+            params = [x.arg for x in a.args] + [x.arg for x in a.kwonlyargs]
+            if is_method or (isinstance(c.func, ast.Attribute) and params and params[0] in ("self", "cls") and any(isinstance(d, ast.Name) and d.id == "classmethod" for d in fn.decorator_list)):
+                params = params[1:]
+            elif any(isinstance(d, ast.Name) and d.id == "classmethod" for d in fn.decorator_list):
+                params = params[1:]
+            dflt: Dict[str, ast.AST] = {}
+            pos = [x.arg for x in a.args]
+            for pn, d in zip(pos[len(pos) - len(a.defaults):], a.defaults):
+                dflt[pn] = d
+            for x, d in zip(a.kwonlyargs, a.kw_defaults):
+                if d is not None:
+                    dflt[x.arg] = d
+            given = {k.arg: k.value for k in c.keywords}
+            if len(c.args) > len(params) or any(k not in params[len(c.args):] for k in given):
+                continue
+            rest = params[len(c.args):]
+            last = max(rest.index(k) for k in given)
+            new_args = list(c.args)
+            ok_ = True
+            for pn in rest[: last + 1]:
+                if pn in given:
+                    new_args.append(given[pn])
+                elif pn in dflt and isinstance(dflt[pn], ast.Constant):
+                    new_args.append(copy.deepcopy(dflt[pn]))
+                else:
+                    ok_ = False
+                    break
+            if not ok_:
+                continue
+            c.args = new_args
+            c.keywords = []
+            ast.fix_missing_locations(c)
+            n_calls += 1
+    return [f"{n_calls} call(s) with keyword arguments read positionally"] if n_calls else []
+
+
+def fuse_wrappers(trees: Dict[str, ast.Module]) -> List[str]:
+    """An audited definition W that has become a thin wrapper - its body is one call `[return] G(p1, .., pn)` of
+    a definition G the audited tree does not have (or that has W's own name in another module: a move), with
+    W's own parameters in order - is read with G's body under W's parameter names; other callers of G are
+    read as callers of W.  This is the shape "rename / move with a forwarding stub left behind"."""
+    base = _baseline_defs()
+    notes: List[str] = []
+    if not base:
+        return notes
+    mod_funcs: Dict[str, Dict[str, ast.FunctionDef]] = {m: {s_.name: s_ for s_ in t.body if isinstance(s_, ast.FunctionDef)} for m, t in trees.items()}
+    count: Dict[str, int] = {}
+    for t in trees.values():
+        for n in ast.walk(t):
+            if isinstance(n, _FUNC):
+                count[n.name] = count.get(n.name, 0) + 1
+
+    def wrapper_call(w: ast.FunctionDef):
+        body = [x for x in _helper_body(w) if not isinstance(x, (ast.Import, ast.ImportFrom))]
+        if len(body) != 1 or not isinstance(body[0], (ast.Return, ast.Expr)) or not isinstance(body[0].value, ast.Call):
+            return None
+        c = body[0].value
+        if c.keywords and any(k.arg is None for k in c.keywords):
+            return None
+        params = [a.arg for a in w.args.args] + [a.arg for a in w.args.kwonlyargs]
+        args = list(c.args) + [k.value for k in c.keywords]
+        if not all(isinstance(a, ast.Name) for a in args):
+            return None
+        return c, params, [a.id for a in args], body[0]
+
+    for mod, t in trees.items():
+        holders: List[Tuple[list, Optional[ast.ClassDef]]] = [(t.body, None)] + [(c.body, c) for c in t.body if isinstance(c, ast.ClassDef)]
+        for seq, cls in holders:
+            for w in list(seq):
+                if not isinstance(w, ast.FunctionDef) or w.name not in base or w.name.startswith("__"):
+                    continue
+                r = wrapper_call(w)
+                if r is None:
+                    continue
+                c, wparams, argnames, stmt = r
+                g = None
+                ghome = None
+                gcls = None
+                f = c.func
+                if isinstance(f, ast.Name):
+                    # a function of this module, or one imported (at module level or inside the wrapper)
+                    cand_mods = [mod]
+                    for st in list(t.body) + list(w.body):
+                        if isinstance(st, ast.ImportFrom) and st.module and any((a.asname or a.name) == f.id for a in st.names):
+                            real = next(a.name for a in st.names if (a.asname or a.name) == f.id)
+                            cand_mods = [m for m in trees if m == st.module or m.endswith("." + st.module)] + cand_mods
+                            fname = real
+                            break
+                    else:
+                        fname = f.id
+                    for m in cand_mods:
+                        if fname in mod_funcs.get(m, {}) and mod_funcs[m][fname] is not w:
+                            g, ghome = mod_funcs[m][fname], m
+                            break
+                elif isinstance(f, ast.Attribute) and isinstance(f.value, ast.Name) and cls is not None and wparams and f.value.id == wparams[0]:
+                    for s_ in cls.body:
+                        if isinstance(s_, ast.FunctionDef) and s_.name == f.attr and s_ is not w:
+                            g, ghome, gcls = s_, mod, cls
+                            argnames = [wparams[0]] + argnames
+                if g is None or (g.name in base and g.name != w.name) or g.decorator_list and not all(isinstance(d, ast.Name) and d.id == "staticmethod" for d in g.decorator_list):
+                    continue
+                if g.name != w.name and count.get(g.name, 0) != 1:
+                    continue
+                gparams = [a.arg for a in g.args.args] + [a.arg for a in g.args.kwonlyargs]
+                if len(argnames) != len(gparams) or sorted(set(argnames)) != sorted(set(wparams)) and not set(argnames) <= set(wparams):
+                    continue
+                if len(set(argnames)) != len(argnames):
+                    continue
+                # parameters of W that G does not get must not matter; here: every parameter is forwarded
+                if set(argnames) != set(wparams):
+                    continue
+                ren = {gp: an for gp, an in zip(gparams, argnames) if gp != an}
+                clash = ({n.id for n in ast.walk(g) if isinstance(n, ast.Name)} | _stored_names(g)) & set(ren.values()) - set(ren)
+                if clash - set(gparams):
+                    continue
+                new_body = copy.deepcopy(list(g.body))
+                if ren:
+                    for st in new_body:
+                        for n in ast.walk(st):
+                            if isinstance(n, ast.Name) and n.id in ren:
+                                n.id = ren[n.id]
+                            elif isinstance(n, ast.arg) and n.arg in ren:
+                                n.arg = ren[n.arg]
+                keep_imports = [x for x in w.body if isinstance(x, (ast.Import, ast.ImportFrom)) and not any((a.asname or a.name) == getattr(f, "id", None) for a in x.names)]
+                w.body = keep_imports + new_body
+                # the names G's body needs from its own module
+                if ghome != mod:
+                    free = {x.id for x in ast.walk(g) if isinstance(x, ast.Name)} - set(gparams) - _stored_names(g)
+                    for nm in sorted((free & _module_bindings(trees[ghome])) - _module_bindings(t)):
+                        imp = _import_for(trees, ghome, nm) or ast.fix_missing_locations(ast.ImportFrom(module=ghome, names=[ast.alias(name=nm, asname=None)], level=0))
+                        t.body.insert(0, imp)
+                # other callers of G are callers of W
+                w_is_method = cls is not None and not any(isinstance(d, ast.Name) and d.id == "staticmethod" for d in w.decorator_list)
+                g_is_method = gcls is not None and not any(isinstance(d, ast.Name) and d.id == "staticmethod" for d in g.decorator_list)
+                n_red = 0
+                for t2 in trees.values():
+                    for call in ast.walk(t2):
+                        if not isinstance(call, ast.Call) or any(call is x for x in ast.walk(w)):
+                            continue
+                        cf = call.func
+                        if g_is_method:
+                            if isinstance(cf, ast.Attribute) and cf.attr == g.name and g.name != w.name:
+                                cf.attr = w.name
+                                n_red += 1
+                        elif isinstance(cf, ast.Name) and cf.id == g.name and (g.name != w.name or t2 is not t or cls is not None):
+                            if w_is_method and not call.keywords and call.args and len(call.args) == len(gparams):
+                                order = [argnames.index(p_) for p_ in wparams]  # positions in G's argument list of W's parameters
+                                recv = call.args[order[0]]
+                                call.func = ast.copy_location(ast.Attribute(value=recv, attr=w.name, ctx=ast.Load()), cf)
+                                call.args = [call.args[k_] for k_ in order[1:]]
+                                n_red += 1
+                            elif not w_is_method and g.name != w.name:
+                                cf.id = w.name
+                                if argnames != wparams and not call.keywords and len(call.args) == len(gparams):
+                                    call.args = [call.args[argnames.index(p_)] for p_ in wparams]
+                                n_red += 1
+                        elif isinstance(cf, ast.Attribute) and cf.attr == g.name and not g_is_method and gcls is None and g.name != w.name and isinstance(cf.value, ast.Name):
+                            cf.attr = w.name
+                            n_red += 1
+                refs = sum(1 for t2 in trees.values() for x in ast.walk(t2) if (isinstance(x, ast.Name) and x.id == g.name and not any(x is y for y in ast.walk(w))) and g.name != w.name)
+                holder = gcls.body if gcls is not None else trees[ghome].body
+                if refs == 0 and g in holder and g.name != w.name or (g.name == w.name and g in holder and not any(isinstance(x, ast.Name) and x.id == g.name for t2 in trees.values() for x in ast.walk(t2) if not any(x is y for y in ast.walk(w)))):
+                    holder.remove(g)
+                    if gcls is not None and not holder:
+                        holder.append(ast.Pass())
+                ast.fix_missing_locations(w)
+                notes.append(f"{mod}: {(cls.name + '.') if cls else ''}{w.name} is a wrapper of {g.name} ({ghome}): read with its body; {n_red} other call(s) redirected")
     return notes
 
 
